@@ -2,7 +2,7 @@
 
 Every gate, bit-manipulation block, selector and comparator of the catalogue (harness/library.py) at every combination of port widths and
 every constructor option is instantiated in real py4hw; its complete truth table (all input vectors at
-small widths, boundary + seeded random vectors at 8/16/30 bits) is measured on the real simulator and
+small widths, boundary + seeded random vectors at 8/16/27 bits (integer references; 31..64 bits through LibraryWide)) is measured on the real simulator and
 judged row by row by TLC against Library!CombRef (the documented integer operation reduced modulo
 2^(output width)).  TLC also checks algebraic identities of the references themselves.
 """
@@ -19,7 +19,7 @@ def check(run):
     if run.tier == 'quick':
         combcheck.run_group(run, GROUP, (1, 2, 3), 1 << 12, wide=(4, 8, 16))
     else:
-        combcheck.run_group(run, GROUP, (1, 2, 3, 4, 5), 1 << 14, big=True, wide=(8, 13, 16, 30))
+        combcheck.run_group(run, GROUP, (1, 2, 3, 4, 5), 1 << 14, big=True, wide=(8, 13, 16, 27))
     if run.tier == 'quick':
         combcheck.run_x(run, GROUP, (1, 2, 3), 256)
         combcheck.run_wide(run, GROUP, [(32,), (33,), (64,), (16, 48)], 2, 40)
